@@ -70,3 +70,21 @@ Proof.
   - apply Nat.ltb_lt. exact H6.
   - destruct (ins_of g root); auto. discriminate.
 Qed.
+
+(* ---------- which nodes have a valid completion; productive / acyclic graphs (C11) ---------- *)
+Definition vc_step (g : graph) (vc : list bool) : list bool :=
+  map (fun n => match kind_of g n with
+                | KLeaf v => v
+                | KDec true _ => forallb (fun t => nth t vc false) (outs_of g n)
+                | KDec false _ => existsb (fun t => nth t vc false) (outs_of g n)
+                | KRef _ => false
+                end) (seq 0 (length g)).
+Definition vcb (g : graph) : list bool :=
+  Nat.iter (length g) (vc_step g) (repeat false (length g)).
+Definition productiveb (g : graph) : bool :=
+  let vc := vcb g in forallb (fun n => negb (is_dec g n) || nth n vc false) (seq 0 (length g)).
+
+Definition safe_step (g : graph) (sf : list bool) : list bool :=
+  map (fun n => forallb (fun t => nth t sf false) (outs_of g n)) (seq 0 (length g)).
+Definition acyclicb (g : graph) : bool :=
+  forallb (fun b => b) (Nat.iter (length g) (safe_step g) (repeat false (length g))).
